@@ -15,7 +15,7 @@ def hexs(b: bytes) -> str:
 
 def showB(b: bytes) -> str:
     """the drivers' rendering of long byte strings"""
-    return hexs(b) if len(b) <= 4096 else f"#{len(b)}:{fnv(b)}"
+    return hexs(b) if len(b) <= 65536 else f"#{len(b)}:{fnv(b)}"
 
 def row_bytes(bits, w):
     """bytes of a row that carry pixels"""
